@@ -178,6 +178,19 @@ static Type *get_common_type(Type *ty1, Type *ty2) {
 // its compatible type int.
 Type *promoted_type(Node *node) {
   Type *ty = node->ty;
+
+  // The value of an assignment is that of its left operand, the value
+  // of a comma expression that of its right operand: a bit-field there
+  // is promoted like the bit-field itself.
+  for (;;) {
+    if (node->kind == ND_ASSIGN && node->lhs)
+      node = node->lhs;
+    else if (node->kind == ND_COMMA && node->rhs)
+      node = node->rhs;
+    else
+      break;
+  }
+
   if (node->kind == ND_MEMBER && node->member->is_bitfield && is_integer(ty)) {
     int width = node->member->bit_width;
     if (width < 32 || (width == 32 && !ty->is_unsigned))
